@@ -8,7 +8,7 @@ import jax
 import jax.numpy as jnp
 import numpy as np
 
-from ..catalogue import FAM, Builder, show
+from ..catalogue import FAM, Builder, leaf_names, show
 from ..common import S, default_dtype, describe_struct, f32, f64, structs_equal
 from ..harness import inconclusive, ok, skipped, violation
 from ..programs import build_concrete
@@ -21,15 +21,15 @@ EXPLANATION = ('(a) Operators are constructed with jax.export symbolic dimension
                'back as dimension polynomials and z3 decides, for ALL a, b >= 1, whether any declared axis length or size can differ from the '
                'traced one (unsat = honest for every size). (b) For every catalogue operator, its transpose, closed-form inverse, reduce() and '
                'seeded composites, the declared pytree/shapes/dtypes/sizes/promoted dtypes are compared with the abstract evaluation of mv in the '
-               'configurations {float32, float64} x {x64 on, off}; (b) is a finite enumeration on the IR and involves no solver.')
+               'configurations {float32, float64} x {x64 on, off}, plus float16, bfloat16 and complex64 data for the leaf-level programs; (b) is a finite enumeration on the IR and involves no solver.')
 FUNCTIONS = ['AbstractLinearOperator.out_structure/in_size/out_size/in_promoted_dtype/out_promoted_dtype', 'square()', 'AdditionOperator/CompositionOperator/_AbstractLazyDualOperator structures',
              'AbstractBlockOperator/BlockRowOperator/BlockColumnOperator structures', 'IndexOperator._out_structure', 'every constructor that accepts symbolic dimensions']
-BOUNDS = {'quick': '(a) 27 operator constructions with symbolic dimensions (all sizes >= 1); (b) catalogue leaves, .T, closed-form .I, reduce(), 40 composites per family x 3 dtype/x64 configurations',
+BOUNDS = {'quick': '(a) 27 operator constructions with symbolic dimensions (all sizes >= 1); (b) catalogue leaves, .T, closed-form .I, reduce(), 40 composites per family x 3 dtype/x64 configurations; leaf-level programs + 15 composites also in float16 / bfloat16 / complex64; every diagonal / axis specification of the C11 and C13 families that the constructors accept',
           'thorough': '(b) up to 3 000 composites per family'}
 STUBS = []
 ASSUMPTIONS = ['operators that reject symbolic dimensions (Reshape with -1, slices/ellipsis on a symbolic axis, Toeplitz signal axis) are covered by (b) only',
                'parameters no wider than the data dtype']
-RULE = 'case = symbolic-dimension construction, or (operator expression, dtype, x64 mode); non-trivial = output structure differs from input structure or is computed by abstract evaluation; distinct keys'
+RULE = 'case = symbolic-dimension construction, an accepted constructor specification, or (operator expression, dtype, x64 mode); non-trivial = output structure differs from input structure or is computed by abstract evaluation; distinct keys'
 BUDGET = {'quick': 300, 'thorough': 1200}
 
 
@@ -99,6 +99,13 @@ def cases(tier, seed):
         for e in progs:
             for cfg in (('f32', True), ('f32', False), ('f64', True)):
                 out.append(('struct', fam, e, cfg))
+        # half precision (every operator) and complex data (every operator documented for it: the Toeplitz operator is typed Float)
+        small = list(base) + [('T', b) for b in base] + [('I', ('leaf', n, 0)) for n in c04.CLOSED_INV[fam]] + [('red', b) for b in base] + comp[:15]
+        for e in small:
+            out.append(('struct', fam, e, ('f16', True)))
+            out.append(('struct', fam, e, ('bf16', False)))
+            if not any(n in ('Tz', 'To', 'To3', 'Tf') for n in leaf_names(e)):
+                out.append(('struct', fam, e, ('c64', True)))
     for kind in ('row', 'col', 'diag'):
         for cont in ('list', 'dict', 'nest', 'tuple'):
             for ar in (1, 2, 3):
@@ -106,6 +113,14 @@ def cases(tier, seed):
                 blocks = tuple(('leaf', n, i) for i, n in enumerate((pool * 2)[3 - ar:3] if ar < 3 else pool))
                 out.append(('struct', 'vec', (kind, cont, blocks), ('f32', False)))
                 out.append(('struct', 'vec', ('T', (kind, cont, blocks)), ('f64', True)))
+    # whatever a validating constructor ACCEPTS must be honest: the specification families of C11 (diagonals) and C13 (axes)
+    from . import c11, c13
+    for k in c11.cases(tier, seed):
+        if k[0] == 'diag':
+            out.append(('accept', 'diag', k))
+    for k in c13.cases(tier, seed):
+        if k[0] in ('move', 'ravel', 'reshape') and (len(k[1]) > 1 or tier == 'thorough' or hash(repr(k)) % 4 == 0):
+            out.append(('accept', 'axes', k))
     out.append(('custom',))
     return out
 
@@ -166,7 +181,7 @@ def _symdim(name, twin):
 
 def _struct(fam, e, cfg, twin=False):
     dt, x64 = cfg
-    dtype = f32 if dt == 'f32' else f64
+    dtype = {'f32': f32, 'f64': f64, 'f16': jnp.float16, 'bf16': jnp.bfloat16, 'c64': jnp.complex64}[dt]
 
     def go():
         with default_dtype(dtype):
@@ -239,6 +254,45 @@ def _custom():
     return ok(obligations=0, structure_checks=1, nontrivial=True, sample=dict(operator='harness-defined Widen (f32,f16) -> (f32,f64,f16)'))
 
 
+def _accept(what, k):
+    """If the constructor accepts the specification, the declared structures must be those of mv (and of T.mv)."""
+    from . import c11, c13
+    try:
+        if what == 'diag':
+            _, shapes, vs, ax, strict = k
+            op = c11._cls(strict)(jnp.ones(vs), axis_destination=ax, in_structure=c11._ins(shapes))
+        else:
+            op = c13._make(k)()
+        xin = op.in_structure()
+    except Exception:  # noqa: BLE001
+        return ok(obligations=0, nontrivial=False, structure_checks=0, sample=None)   # refused: nothing is declared
+    try:
+        traced = jax.eval_shape(op.mv, xin)
+    except Exception:  # noqa: BLE001
+        # accepted but not applicable to any input (e.g. a move-axis beyond the rank of a leaf, which the property does not require
+        # to be refused at construction): no application returns anything, nothing to be dishonest about
+        return ok(obligations=0, nontrivial=False, structure_checks=0, sample=None)
+    try:
+        decl = op.out_structure()
+    except Exception as ex:  # noqa: BLE001
+        return violation(f'{type(op).__name__} built from {k[1:]} applies to its input but out_structure() raises {type(ex).__name__}: {str(ex)[:100]}', signature=f'c05-accept-raises:{k}', kind='struct')
+    problems = []
+    if not structs_equal(decl, traced):
+        problems.append(f'out_structure() = {describe_struct(decl)} but mv returns {describe_struct(traced)}')
+    if op.out_size() != sum(math.prod(l.shape) for l in jax.tree.leaves(traced)):
+        problems.append(f'out_size()={op.out_size()}')
+    try:
+        t = op.T
+        tt = jax.eval_shape(t.mv, traced)
+        if not structs_equal(t.in_structure(), traced) or not structs_equal(t.out_structure(), xin) or not structs_equal(tt, xin):
+            problems.append(f'transpose declares {describe_struct(t.in_structure())} -> {describe_struct(t.out_structure())}, T.mv returns {describe_struct(tt)}')
+    except Exception as ex:  # noqa: BLE001
+        problems.append(f'transpose raises {type(ex).__name__}: {str(ex)[:80]}')
+    if problems:
+        return violation(f'{type(op).__name__} built from {k[1:]}: ' + '; '.join(problems), signature=f'c05-accept:{k}', kind='struct')
+    return ok(obligations=0, structure_checks=1, nontrivial=not structs_equal(decl, xin), sample=dict(operator=type(op).__name__, spec=repr(k[1:])[:100], out=str(describe_struct(decl))[:100]))
+
+
 def run_case(key, twin=False):
     if key and key[0] == 'twin':
         return run_case(key[1], twin=True)
@@ -246,6 +300,8 @@ def run_case(key, twin=False):
         return _custom()
     if key[0] == 'symdim':
         return _symdim(key[1], twin)
+    if key[0] == 'accept':
+        return _accept(key[1], key[2])
     _, fam, e, cfg = key
     return _struct(fam, e, tuple(cfg), twin)
 
